@@ -121,6 +121,7 @@ def nonstrict_collections(s, n):
 
 
 def run(s):
+    K.suite_workload(s)
     q = s.tier == 'quick'
     for i in range(16 if q else 500):
         if s.mine(i):
